@@ -280,6 +280,19 @@ CHECKS = {
         "dates. Date methods are judged on Pandas/Polars only; is_inf/is_bad/is_nan are not run on the surrogate.",
         "4/C05",
     ),
+    "C02": (
+        "differential runtime monitor on a surrogate engine: Pandas executor vs PostgreSQL-dialect text executed on SQLite 3.40; PostgreSQL lexer",
+        "No PostgreSQL server exists in the sandbox, so no execution on PostgreSQL is observed. Observed instead: "
+        "PostgreSQLModel().to_sql() text of random pipelines in an engine-neutral fragment (all operators, native "
+        "RIGHT/FULL joins, same-named and differently named keys, shared sub-pipelines, window functions, "
+        "STDDEV_SAMP/VAR_SAMP/LN through shims), half of them with use_cte_elim=True, is executed on a SQLite 3.40 "
+        "surrogate (double-quoted-string fallback off) and compared with the Pandas result as in C01; every text must "
+        "also tokenise under a PostgreSQL lexer.",
+        "Reduced strength, stated plainly: this decides the translation logic the PostgreSQL dialect shares with no "
+        "other executed dialect (native right/full joins, CTE elimination, its formatters), not PostgreSQL's own runtime "
+        "behaviour (type resolution, division by zero, NULL ordering, rounding, identifier folding, infinity literals).",
+        "4/C02",
+    ),
 }
 
 NOT_BUILT = "check not built yet (build in progress, see DESIGN.md section 8)"
